@@ -18,7 +18,7 @@ func init() {
 		Prop:   "C17",
 		Run:    run,
 		Replay: replay,
-		Rule: "E1 over (schema x token path): 7 schemas built by the real compiler (presence and non-presence containers, list with typed key, leaves of several types, empty leaf, leaf-list, nested choice/case, leaves with defaults of their own and from a typedef, a mandatory leaf) x every token path up to the length bound over an alphabet of every node name of the schema, valid and invalid values per type, a foreign name and the empty string, x AllowIncompletePaths (every path is validated with incomplete paths allowed, then strictly, then allowed again, on the same compiled schema); ModelSet.Validate must accept iff a reference walker over the generator's own schema description accepts, and for a rejected path the error must mention the first offending element (or, for an incomplete path, the element it ends on). " +
+		Rule: "E1 over (schema x token path): 8 schemas built by the real compiler (presence and non-presence containers, list with typed key, leaves of several types, empty leaf, leaf-list, nested choice/case, leaves with defaults of their own and from a typedef, a mandatory leaf, two-key lists) x every token path up to the length bound over an alphabet of every node name of the schema, valid and invalid values per type, a foreign name and the empty string, x AllowIncompletePaths (every path is validated with incomplete paths allowed, then strictly, then allowed again, on the same compiled schema); ModelSet.Validate must accept iff a reference walker over the generator's own schema description accepts, and for a rejected path the error must mention the first offending element (or, for an incomplete path, the element it ends on). " +
 			"Subtrees below a prefix both sides reject for its last token are not extended (the walk is left-to-right and prefix-determined; pruned subtrees are counted). Non-trivial = the path has >= 2 tokens.",
 		Bound: map[string]string{
 			"quick":    "paths of <= 5 tokens (no pruning below 4 tokens)",
@@ -70,7 +70,7 @@ func (n *sn) yang() string {
 		b.WriteString(" presence \"p\";")
 	}
 	if n.Key != "" {
-		fmt.Fprintf(&b, " key %s;", n.Key)
+		fmt.Fprintf(&b, " key %q;", n.Key)
 	}
 	for _, k := range n.Kids {
 		b.WriteString(" " + k.yang())
@@ -143,7 +143,7 @@ func walkRef(kids []*sn, p []string, allowIncomplete bool) (ok bool, bad int) {
 		tok := p[i]
 		switch {
 		case node != nil && node.Kind == "list":
-			key := visible(node.Kids)[node.Key]
+			key := visible(node.Kids)[strings.Fields(node.Key)[0]] // the entry token is validated as the first key
 			if !valid(key.Type, tok) {
 				return false, i
 			}
@@ -196,6 +196,9 @@ func schemas() [][]*sn {
 		// defaults (own and from a typedef) whose values are tokens of the alphabet, a mandatory leaf
 		{{Kind: "container", Name: "dc", Kids: []*sn{{Kind: "leaf", Name: "d7", Type: "uint8", Default: "7"}, {Kind: "leaf", Name: "dg", Type: "enum", Default: "green"}, {Kind: "leaf", Name: "tdl", Type: "boolean", Default: "true", Typedef: true}, {Kind: "leaf", Name: "m", Type: "uint8", Mandatory: true}}},
 			{Kind: "list", Name: "dl", Key: "k", Kids: []*sn{lf("k", "string"), {Kind: "leaf", Name: "dx", Type: "string", Default: "x"}}}},
+		// lists with two keys of different types, in both orders
+		{{Kind: "list", Name: "nf", Key: "id nm", Kids: []*sn{lf("id", "uint8"), lf("nm", "enum"), lf("v", "boolean")}},
+			{Kind: "list", Name: "sf", Key: "nm id", Kids: []*sn{lf("id", "uint8"), lf("nm", "enum"), lf("v", "boolean")}}},
 	}
 }
 
